@@ -53,8 +53,39 @@ def case(idx, payload):
     return res
 
 
+def multifile_case(idx, payload):
+    """several interface files wrapped together for MATLAB: layout at the file BOUNDARIES (leading / trailing blank lines and
+    complete comments, e.g. `}  // namespace gtsam` + newline at the end of a file, code on the first line of the next one)
+    must not change the toolbox"""
+    import gen
+    seed, _, _ = payload
+    rng = random.Random(seed * 1000003 + idx + 7117)
+    n = rng.randint(2, 3)
+    plain, dressed = [], []
+    for k in range(n):
+        g = gen.Gen(rng, gen.Cfg(max_decls=2, max_members=3, max_depth=1, matlab_safe=True, typedef_same_ns=True,
+                                 ns_pool=[["a1", "b1"], ["a2", "b2"], ["a3", "b3"]][k], class_pool=[["P1", "Q1"], ["P2", "Q2"], ["P3", "Q3"]][k],
+                                 mnames=["f%d" % k, "g%d" % k]))
+        m = gen.gen_module_inst(g)
+        body = gen.layout(rng, gen.lexemes(m), 'space').strip()
+        if rng.random() < 0.5:
+            body = "#include <part%d.h>\n" % k + body
+        plain.append(body + "\n")
+        head = rng.choice(["", "", "\n", "// part %d\n" % k, "/* file %d */ " % k])
+        tail = rng.choice(["  // end of part %d\n" % k, "  // namespace x }\n", "\n\n", " /* eof */\n", "\n// trailing\n"])
+        dressed.append(head + body + tail)
+    res = dict(idx=idx, styles=["files"], nlex=1, texts=["\x1e".join(dressed)], bad=None)
+    a = impl_matlab(plain, "m", [], False)
+    b = impl_matlab(dressed, "m", [], False)
+    if a != b:
+        res["bad"] = dict(kind="spec", what="MATLAB: comments / blank lines at the boundaries of the interface files change the toolbox",
+                          files=dressed, files_plain=plain, expected=str(a)[:300], got=str(b)[:300])
+    return res
+
+
 def run(ctx, n, seed_off=0, collect=True):
     res = fw.run_cases(case, [(ctx.seed + seed_off, None, 4)] * n)
+    res += fw.run_cases(multifile_case, [(ctx.seed + seed_off + 5, None, 0)] * max(12, n // 3))
     # operator overloads, dunder methods, enums and defaults in quantity: the places where two alternatives of the grammar
     # compete and a comment glued to a token can tip the longest match
     res += fw.run_cases(case, [(ctx.seed + seed_off + 3, dict(extra_member_kinds=['op', 'op', 'op', 'dunder', 'enum', 'prop'],
